@@ -293,6 +293,124 @@ class WrapTranslator:
         return ".unknown"
 
 
+class BlameTranslator(WrapTranslator):
+    """`_get_problem_arg`: the body of its `for keep_name in …` loop and its `else` clause (Model/BlameDsl.lean)"""
+
+    def __init__(self, tree, loop_var):
+        super().__init__(tree)
+        self.loop_var = loop_var
+        self.fn_var = None
+
+    def seq(self, stmts, outer=()):
+        stmts = self._strip(stmts)
+        # the group of statements that builds the one-parameter checker: everything up to and including
+        # `<fn> = _apply_typechecker(typechecker, …)`, free of other effects, mentioning the loop variable
+        k = next((i for i, st in enumerate(stmts) if isinstance(st, ast.Assign) and len(st.targets) == 1 and isinstance(st.targets[0], ast.Name)
+                  and isinstance(st.value, ast.Call) and _callee(st.value) == "_apply_typechecker" and len(st.value.args) == 2 and _u(st.value.args[0]) == "typechecker"), None)
+        items = []
+        rest = stmts
+        if k is not None and not outer:
+            group = stmts[:k + 1]
+            src = " ".join(_u(g) for g in group)
+            calls = [_callee(c) for g in group for c in ast.walk(g) if isinstance(c, ast.Call)]
+            ok = "_make_fn_with_signature" in calls or any(cn in self.helpers and "_make_fn_with_signature" in _u(self.helpers[cn]) for cn in calls)
+            ok = ok and self.loop_var in {n.id for g in group for n in ast.walk(g) if isinstance(n, ast.Name)}
+            ok = ok and not any(cn in EFFECTFUL - {"bind"} for cn in calls) and "output=False" in src.replace(" ", "") .replace("output=False", "output=False")
+            ok = ok and not any(isinstance(n, (ast.Raise, ast.Return, ast.Try, ast.Global, ast.Nonlocal)) for g in group for n in ast.walk(g))
+            if ok:
+                self.fn_var = stmts[k].targets[0].id
+                items.append(".buildChecker")
+                rest = stmts[k + 1:]
+            else:
+                self.notes.append("checker construction not recognised")
+        prev = list(outer)
+        for st in rest:
+            items.append(self.stmt(st, prev))
+            prev.append(st)
+        out = []
+        for x in items:
+            if x == ".message" and out and out[-1] == ".message":
+                continue
+            out.append(x)
+        if not out:
+            return ".skip"
+        r = out[-1]
+        for x in reversed(out[:-1]):
+            r = f"(.seq {x} {r})"
+        return r
+
+    def stmt(self, st, prev):
+        if isinstance(st, ast.Expr) and isinstance(st.value, ast.Call) and self.fn_var and _u(st.value) == f"{self.fn_var}(*args, **kwargs)":
+            return ".callChecker"
+        if isinstance(st, ast.Raise) and st.exc is None and st.cause is None:
+            return ".reraise"
+        if isinstance(st, ast.Raise) and isinstance(st.exc, ast.Call) and _u(st.exc.func) == "TypeCheckError" and len(st.exc.args) == 1 and not st.exc.keywords:
+            a = st.exc.args[0]
+            if isinstance(a, ast.Constant) and a.value == "" and st.cause is None:
+                return ".raiseNone"
+            names = {n.id for n in ast.walk(a) if isinstance(n, ast.Name)}
+            text = "".join(c.value for c in ast.walk(a) if isinstance(c, ast.Constant) and isinstance(c.value, str))
+            cause_ok = st.cause is None or (self.exc_names and _u(st.cause) in self.exc_names) or _u(st.cause) == "None"
+            if self.loop_var in names and "parameter" in text and cause_ok and self.exc_names:
+                return ".raiseBlame"
+            self.notes.append("raise: " + _u(st)[:100])
+            return ".unknown"
+        if isinstance(st, ast.Try):
+            if st.orelse or st.finalbody:
+                self.notes.append("try with else / finally in _get_problem_arg")
+                return ".unknown"
+            inner = self.seq(st.body, prev)
+            hs = ".endHandlers"
+            chain = []
+            for h in st.handlers:
+                cls = "baseException" if h.type is None else CLASSES.get(_u(h.type))
+                if cls is None:
+                    self.notes.append("except " + _u(h.type)[:60])
+                    return ".unknown"
+                self.exc_names.append(h.name or "_")
+                body = self.seq(h.body, prev)
+                self.exc_names.pop()
+                chain.append((cls, body))
+            for cls, body in reversed(chain):
+                hs = f"(.handler .{cls} {body} {hs})"
+            return f"(.tryExcept {inner} {hs})"
+        if self._message_stmt(st):
+            return ".message"
+        self.notes.append("statement: " + _u(st)[:100].replace("\n", " "))
+        return ".unknown"
+
+
+def translate_problem_arg(tree, notes):
+    from inline import inline_helpers
+
+    fn = next((n for n in tree.body if isinstance(n, ast.FunctionDef) and n.name == "_get_problem_arg"), None)
+    if fn is None or [a.arg for a in fn.args.args] != ["param_signature", "args", "kwargs", "arguments", "module", "typechecker"]:
+        notes.append("_get_problem_arg not found / unexpected parameters")
+        return ".unknown", ".unknown"
+    body = WrapTranslator._strip(fn.body)
+    if len(body) != 1 or not isinstance(body[0], ast.For):
+        notes.append("_get_problem_arg is not one for / else loop")
+        return ".unknown", ".unknown"
+    loop = body[0]
+    it = _u(loop.iter)
+    if it in ("param_signature.parameters.keys()", "param_signature.parameters") and isinstance(loop.target, ast.Name):
+        var = loop.target.id
+    elif it == "param_signature.parameters.items()" and isinstance(loop.target, ast.Tuple) and len(loop.target.elts) == 2 and isinstance(loop.target.elts[0], ast.Name):
+        var = loop.target.elts[0].id
+    else:
+        notes.append("loop of _get_problem_arg: " + it[:80])
+        return ".unknown", ".unknown"
+    if any(isinstance(n, (ast.Break, ast.Continue)) for n in ast.walk(loop)):
+        notes.append("break / continue in _get_problem_arg")
+        return ".unknown", ".unknown"
+    t = BlameTranslator(tree, var)
+    b = t.seq(loop.body)
+    t2 = BlameTranslator(tree, var)
+    e = t2.seq(loop.orelse) if loop.orelse else ".skip"
+    notes.extend(t.notes + t2.notes)
+    return b, e
+
+
 def _find_wrappers(tree):
     jt = None
     for node in tree.body:
@@ -356,9 +474,11 @@ def run():
                 t = WrapTranslator(tree)
                 exit_ = t.seq(inline_helpers(m, tree, ctx).body)
                 notes.extend(t.notes)
+    pa_body, pa_else = translate_problem_arg(tree, notes)
     note = ("(" + "; ".join(notes)[:400].replace("-/", "- /") + ")") if notes else ""
     txt = f"""/- GENERATED by harness/translate_wrap.py from {REPO}/jaxtyping/_decorator.py on every run. Do not edit. -/
 import JaxVerif.Model.WrapDsl
+import JaxVerif.Model.BlameDsl
 
 namespace JV.Generated
 
@@ -378,10 +498,16 @@ def oldWrapperCode : WStmt :=
 def ctxEnterCode : WStmt := {enter}
 def ctxExitCode : WStmt := {exit_}
 
+/-- `_get_problem_arg`: the body of `for keep_name in param_signature.parameters…:` and its `else:` clause -/
+def problemArgBody : BStmt :=
+  {pa_body}
+def problemArgElse : BStmt :=
+  {pa_else}
+
 end JV.Generated
 """
     write_if_changed(os.path.join(GEN, "WrapperCode.lean"), txt)
-    return {"wrapper_notes": notes, "new": new_code, "impl": impl_code, "old": old_code, "enter": enter, "exit": exit_}
+    return {"wrapper_notes": notes, "problem_arg": [pa_body, pa_else], "new": new_code, "impl": impl_code, "old": old_code, "enter": enter, "exit": exit_}
 
 
 if __name__ == "__main__":
